@@ -11,6 +11,7 @@ import UnifexModel.Driver.Entries.Cancel
 import UnifexModel.Driver.Entries.Coro
 import UnifexModel.Driver.Entries.Ctx
 import UnifexModel.Driver.Entries.Event
+import UnifexModel.Driver.Entries.Io
 import UnifexModel.Driver.Entries.Mutex
 import UnifexModel.Driver.Entries.Sched
 import UnifexModel.Driver.Entries.Scope
@@ -38,6 +39,8 @@ def table : List ModelEntries :=
   , Entries.autoreset
   , Entries.eventv2
   , Entries.asyncpass
+  , Entries.remotequeue
+  , Entries.epollop
   , Entries.mutexv1
   , Entries.mutexv2
   , Entries.alist
